@@ -46,17 +46,25 @@ LoadedFrom(x, ftext) ==
        [x EXCEPT !.hist = Append(@, x.text), !.text = <<>>, !.cursor = 0, !.hidx = -1, !.comps = <<>>, !.cidx = 0, !.notif = "none",
                  !.m = LoadF(x.m, FlatL(asm.lines), asm.ss, asm.ps)]
 
+\* A submitted line that lies in an unspecified zone of the command language (e.g. `set TEMP = 0.`, `FC = 0X1F`): the documentation does
+\* not decide its effect, so from there to the end of the session only the absence of a panic is required ("free" mode; a scripted
+\* session leaves it with the next "new").  Such lines arise when the check edits a previous line (Up, Home, Delete, End, Backspace, Enter).
+Free == [free |-> TRUE]
+IsFree(x) == "free" \in DOMAIN x
+
 Init == s = SessionInit /\ l = 1
 Step ==
   /\ l <= N
   /\ LET r == Rec[l] IN
      \/ r.op = "new" /\ s' = SessionInit
-     \/ /\ r.op \notin {"new", "panic"}
+     \/ IsFree(s) /\ r.op \notin {"new", "panic"} /\ s' = s
+     \/ /\ ~IsFree(s) /\ r.op \notin {"new", "panic"}
         /\ LET succ == Key([s EXCEPT !.quit = FALSE], KeyOf(r)) IN     \* quit is the answer to ONE key; the scripted session goes on
            \/ \E y \in succ : "special" \notin DOMAIN y /\ Match(y, r) /\ s' = y
            \/ /\ [special |-> "files"] \in succ                       \* file-name completion: any candidate list that ends with the typed text
               /\ s' = AdoptEd(s, r) /\ MatchM(s', r) /\ r.notif = "none"
               /\ (r.ed.comps # <<>> => r.ed.comps[Len(r.ed.comps)] = s.text)
+           \/ [special |-> "unspec"] \in succ /\ s' = Free
            \/ /\ [special |-> "load"] \in succ /\ "ftext" \in DOMAIN r   \* load of a readable file with a valid program: exactly the documented effect
               /\ LET y == LoadedFrom(s, r.ftext) IN "special" \notin DOMAIN y /\ Match(y, r) /\ s' = y
            \/ /\ [special |-> "load"] \in succ /\ "ftext" \notin DOMAIN r  \* load of a path that cannot be read: notification, machine untouched
@@ -65,7 +73,7 @@ Step ==
               /\ Match(s', r)
   /\ l' = l + 1
 Spec == Init /\ [][Step]_vars
-EditorInv == EditorOk(s)
+EditorInv == IsFree(s) \/ EditorOk(s)
 Accepted ==
   LET d == TLCGet("stats").diameter IN
   IF d = N + 1 THEN TRUE
